@@ -104,6 +104,8 @@ structure Sim where
   teardown : Bool := false
   windowOpen : Assoc Bool := []
   closedPorts : List String := []   -- link keys whose receiver closed/dropped (sends may fail)
+  /-- port forwarders (`Receiver::forward`): source link key ↦ destination link key -/
+  fwd : Assoc String := []
 
 def Sim.diff (s : Sim) (line : Nat) (what : String) : Sim :=
   if s.exact && !s.teardown then
@@ -527,6 +529,11 @@ def Sim.onOp (s : Sim) (line : Nat) (ws : List String) : Sim :=
         | none => s
       | none => s
     else s
+  | ["forward", k, side, name, dst] =>
+    -- `Receiver::forward` of port `name` into the sender of port `dst`, both on `side`: whatever completes on
+    -- the source link counts as sent on the destination link
+    { s with fwd := s.fwd.set (name ++ ">" ++ other side) (dst ++ ">" ++ side),
+             calls := s.calls.set k (name ++ ">" ++ other side, "forward") }
   | [op, k, side, name] =>
     if op == "recvany" || op == "recvchunk" || op == "recv" then
       -- the receiver of port `name` on `side` is the receiving half of link name>other(side)
@@ -615,15 +622,23 @@ def Sim.onRet (s : Sim) (line : Nat) (k : String) (res : List String) : Sim :=
       -- real-trace predicate bookkeeping
       let wasPartial := l.mPartial.isSome
       let l := if role == "recv" then l.monRecv res else l
-      let l := if (role == "send" || role == "chunks" || role == "trysend") && res == ["ok"] then
-          match s.callData.get? k with
-          | some d => { l with mCompleted := l.mCompleted ++ [d] }
-          | none => l
-        else l
+      let completedNow : Option Bytes := if (role == "send" || role == "chunks" || role == "trysend") && res == ["ok"] then s.callData.get? k else none
+      let l := match completedNow with
+        | some d => { l with mCompleted := l.mCompleted ++ [d] }
+        | none => l
       let s := { s with links := s.links.set key l }
+      -- a forwarder relays the completed message onto its destination link
+      let s := match completedNow, s.fwd.get? key with
+        | some d, some dk =>
+          match s.links.get? dk with
+          | some dl => { s with links := s.links.set dk { dl with mCompleted := dl.mCompleted ++ [d] } }
+          | none => s
+        | _, _ => s
+      -- sends in flight on the source link of a forwarder may already be on their way to the destination
+      let srcKey := ((s.fwd.find? (fun (_, d) => d == key)).map (·.1)).getD key
       -- c01: delivered must remain a prefix of completed at all times
       -- (a send completes before its last frame can be delivered, so this holds at every `ret`)
-      let inFlight : List Bytes := (s.calls.filter (fun (ck, (lk, r)) => lk == key && r != "recv" && !s.seenCalls.contains ck)).filterMap (fun (ck, _) => s.callData.get? ck)
+      let inFlight : List Bytes := (s.calls.filter (fun (ck, (lk, r)) => lk == srcKey && r != "recv" && !s.seenCalls.contains ck)).filterMap (fun (ck, _) => s.callData.get? ck)
       let s := if role == "recv" && !l.mAbandoned && !(isPrefix l.mDelivered (l.mCompleted ++ inFlight.take 1)) then
           s.fail "c01" line s!"{key}: delivered {l.mDelivered.map toHex} is not a prefix of the completed sends {l.mCompleted.map toHex}"
         else s
@@ -743,6 +758,8 @@ def Sim.c03AtSettle (s : Sim) (line : Nat) (pend : List String) (creditLines : L
           else s
         | _, _ => s
       | [] =>
+        -- (the sends of a forwarder are not script calls: its destination link has no quiescent "idle" state)
+        if s.fwd.any (fun (_, d) => d == key) then s else
         match poolReal with
         | some pool =>
           if windowOpen && pool + l.mOutstanding != l.cfg.limit + l.mGrantedRx then
